@@ -10,6 +10,7 @@ from engine.srcmodel import walk_shallow, norm, parent, ancestors, dotted, set_p
 from engine.util import call_name, contains, header_nodes, single_def_value, enumerate_paths
 from engine.cfg import stmt_of
 from . import solvers as S
+from ._strconcat_lint import implicit_concats, is_string_table, self_check as _concat_self_check
 
 PROPERTY = "C20"
 CIRCUIT_T = "pyrates/frontend/template/circuit.py"
@@ -45,6 +46,10 @@ EXPLANATION = (
     "PyRates' own code is one of four frozen, justified sites.  R6 must-pass obligations for check_vname (each variable handed to the OperatorIR is name-checked; each reserved-name "
     "table is enforced by a raise), the single-output raise, the leftover value_updates raise, the cycle raise, the EdgeIR.output "
     "raise.  R7 every fixed-step solver override feeds a DDEHistory after the step or refuses it before integrating (D-14).  "
+    "Lint on every constant string table these rules read (SUPPORTED_SOLVERS in R1, the backend tables of _validate_backend_args in "
+    "R3, the reserved names / name parts of check_vname in R6, local or module level): no element is an implicit concatenation of "
+    "adjacent string literals (a lost comma merges two entries into one that matches nothing); decided on the token stream of the "
+    "element's source extent, with a synthetic positive control on every run.  "
     "NOT decided: which names belong in the reserved list, message quality, errors raised by third-party libraries, loudness of "
     "edges with missing endpoints (they fail with KeyError in look-ups that are not modelled; the _verify_path obligations of the "
     "design are listed as information only because removing them does not make the template route silent), the Julia/Matlab bridges."
@@ -523,6 +528,33 @@ def _calls_of_stmt(st) -> List[ast.Call]:
 # ------------------------------------------------------------------------------------------------
 # R1 — solver validation and dispatch
 # ------------------------------------------------------------------------------------------------
+def lint_table(ctx, rid, f, module, node, what: str, consequence: str, label: str = None, construct: str = None):
+    """Obligation: no element of the constant string table `node` is an implicit concatenation of adjacent literals (a lost comma
+    silently replaces two entries by one that matches nothing)."""
+    _concat_self_check(rid)
+    hits = implicit_concats(module.source, node)
+    kw = dict(label=label) if f is not None else dict(construct=construct, loc=f"{module.rel}:{getattr(node, 'lineno', 1)}")
+    if hits:
+        e, toks = hits[0]
+        ctx.violation(rid, f, node if f is not None else None,
+                      f"{what}: the element {e.value!r} (line {e.lineno}) is written as the adjacent literals {' '.join(toks)} - a separator is "
+                      f"missing, Python concatenates them into one entry and neither of the intended entries is in the table any more: "
+                      f"{consequence}", {"element": e.value, "literals": toks}, **kw)
+    else:
+        ctx.ok(rid, f, node if f is not None else None, f"{what}: every element is a single string literal", nontrivial=False, **kw)
+
+
+def module_tables_used(f) -> list:
+    """[(name, value node)] of module-level constant string tables the function `f` refers to by name."""
+    out = []
+    local = {n.id for n in walk_shallow(f.node) if isinstance(n, ast.Name) and isinstance(n.ctx, (ast.Store, ast.Del))} | set(f.params)
+    for nm in sorted({n.id for n in walk_shallow(f.node) if isinstance(n, ast.Name) and isinstance(n.ctx, ast.Load)} - local):
+        defs = f.module.assigns.get(nm, [])
+        if len(defs) == 1 and isinstance(defs[0], (ast.Assign, ast.AnnAssign)) and defs[0].value is not None and is_string_table(defs[0].value):
+            out.append((nm, defs[0].value))
+    return out
+
+
 def _solver_param(f, rid, pname: str = "solver") -> str:
     if pname not in f.params:
         raise AnalysisError(f"{rid}: {f.qual} has no parameter `{pname}` (unrecognised signature)")
@@ -960,6 +992,17 @@ def r1_solver_validation(ctx, rid):
             ctx.violation(rid, vf, vf.node, f"the solver validator that {cls.name} resolves to lets unsupported names through: {why}; "
                                             f"an unsupported solver would fall into a dispatcher branch and return numbers",
                           facts, label=f"validator as resolved for {cls.name}")
+    # ---- the declared tables themselves: no lost separator
+    linted = set()
+    for cls in classes:
+        at = ctx.repo.lookup_attr(cls, "SUPPORTED_SOLVERS")
+        if at is None or id(at[1]) in linted:
+            continue
+        linted.add(id(at[1]))
+        owner, node = at
+        lint_table(ctx, rid, None, owner.module, node, f"{owner.name}.SUPPORTED_SOLVERS",
+                   "a declared solver is refused and an undeclared name is accepted",
+                   construct=f"{owner.module.rel}::{owner.name}::SUPPORTED_SOLVERS literals")
     # ---- (a) validation dominates every implementation call along the _solve chain
     verdicts: Dict[tuple, dict] = {}
 
@@ -1549,6 +1592,13 @@ def r3_backend_args(ctx, rid):
             else:
                 ctx.violation(rid, f, a_st, f"the template is compiled for a backend without prior validation of the backend arguments: {why}; "
                                             f"e.g. vectorize=True with the Fortran backend is compiled instead of refused", facts, label=label)
+    # the backend tables the validator consults: no lost separator
+    for tnode in [n for n in walk_shallow(val_f.node) if is_string_table(n)]:
+        lint_table(ctx, rid, val_f, val_f.module, tnode, f"backend table {norm(tnode, 60)}", "a backend listed here is no longer matched",
+                   label=f"literals of {norm(tnode, 60)}")
+    for nm, tnode in module_tables_used(val_f):
+        lint_table(ctx, rid, val_f, val_f.module, tnode, f"backend table {nm}", "a backend listed here is no longer matched",
+                   label=f"literals of {nm}")
     # content: (vectorize=True, backend='fortran') can only raise
     for nm in ("backend", "vectorize"):
         if _stores(val_f, nm):
@@ -1980,6 +2030,13 @@ def _r6_check_vname(ctx, rid):
         if isinstance(e, ast.Compare) and len(e.ops) == 1 and isinstance(e.ops[0], (ast.In, ast.NotIn)):
             return isinstance(e.ops[0], ast.In)
         return None
+    table_values = {id(tb.value) for _, tb in tables}
+    for tname, tb in tables:
+        lint_table(ctx, rid, chk, chk.module, tb.value, f"reserved-name table {tname}",
+                   "the reserved names hidden in the merged entry are accepted as variable names", label=f"reserved-name table {tname} literals")
+    for tnode in [n for n in walk_shallow(chk.node) if is_string_table(n) and id(n) not in table_values]:
+        lint_table(ctx, rid, chk, chk.module, tnode, f"reserved-name table {norm(tnode, 60)}",
+                   "the reserved names hidden in the merged entry are accepted as variable names", label=f"literals of {norm(tnode, 60)}")
     for tname, tb in tables:
         uses = [n for n in walk_shallow(chk.node) if isinstance(n, ast.Name) and n.id == tname and isinstance(n.ctx, ast.Load)]
         enforced, witness, recognised_use = False, None, False
